@@ -405,6 +405,9 @@ typedef struct tstate_s {
   rc_table_t rt; int rt_ok;           /* reference decode */
   ldb_bloom_t bloom, ifp;
   const ldb_bloom_t *policy;          /* NULL = none */
+  ldb_bloom_t rbloom, rifp;           /* the READER's policy object: same name, possibly another bits_per_key */
+  const ldb_bloom_t *rpolicy;         /* (a database may be reopened with a different bloom setting: the stored */
+  int rbits;                          /*  filters carry their own probe count and must still accept every present key) */
   const ldb_comparator_t *cmp;
   ldb_lru_t *cache;
   ldb_rfile_t *rfile;
@@ -444,6 +447,19 @@ static int build_table(tstate_t *s) {
     ldb_bloom_init(&s->bloom, tc->o.fbits);
     if (tc->kind == K_PLAIN) s->policy = &s->bloom;
     else { ldb_ifp_init(&s->ifp, &s->bloom); s->policy = &s->ifp; }   /* as db_impl.c does */
+  }
+  s->rpolicy = s->policy;
+  s->rbits = tc->o.fbits;
+  if (s->policy != NULL) {
+    static const int alt[] = {1, 4, 7, 12, 16, 20, 32, 60};
+    uint64_t hsel = vh_hash64(&tc->n, sizeof(tc->n), (uint64_t)tc->o.fbits * 131 + (uint64_t)tc->o.block_size);
+    if (hsel % 2 == 0) {
+      s->rbits = alt[(hsel >> 8) % 8];
+      ldb_bloom_init(&s->rbloom, s->rbits);
+      if (tc->kind == K_PLAIN) s->rpolicy = &s->rbloom;
+      else { ldb_ifp_init(&s->rifp, &s->rbloom); s->rpolicy = &s->rifp; }
+      vh_count("c16_tables_read_with_other_bloom_bits_than_built", 1);
+    }
   }
   opt.comparator = s->cmp;
   opt.block_size = tc->o.block_size;
@@ -630,7 +646,7 @@ static void check_reference(tstate_t *s) {
   /* (d) reference + real filter probe on every present key */
   if (t->filter != NULL && t->nentries == tc->n) {
     ldb_slice_t contents = ldb_slice(t->filter, t->filter_len);
-    ldb_filter_t *fr = ldb_filter_create(s->policy, &contents);
+    ldb_filter_t *fr = ldb_filter_create(s->rpolicy, &contents);
     for (i = 0; i < tc->n; i++) {
       const uint8_t *fk; size_t fl;
       uint64_t boff = t->blocks[t->entries[i].block].offset;
@@ -657,7 +673,7 @@ static int open_table(tstate_t *s) {
   int rc;
   s->cache = tc->o.cache == 0 ? NULL : ldb_lru_create(tc->o.cache == 1 ? 8192 : (8u << 20));
   opt.comparator = s->cmp;
-  opt.filter_policy = s->policy;
+  opt.filter_policy = s->rpolicy;
   opt.block_cache = s->cache;
   opt.use_mmap = tc->o.mmap;
   opt.paranoid_checks = tc->o.paranoid;
